@@ -175,18 +175,25 @@ class SolveGroupSwizzlerPartsel(object):
             e.append(ExprBinModel(
                         ExprFieldRefModel(f),
                         BinExprType.Eq,
-                        ExprLiteralModel(t_range[0], False, 32)))
+                        ExprLiteralModel(t_range[0], f.is_signed, f.width)))
         else:
             # Determine the max width to use for swizzling. 
             # max value of abs bounds
 
-            maxval = int(max(abs(t_range[0]), abs(t_range[1])))
+            # The swizzled bits must tell the target value apart from 
+            # every other value of the domain, not just of this range
+            maxval = int(max(abs(range_l[0][0]), abs(range_l[-1][1])))
 
             d_width = 0
             
             while maxval > 0:
                 d_width += 1
                 maxval >>= 1
+                
+            if range_l[0][0] < 0 and d_width < f.width:
+                # Negative values are only told apart from the
+                # positive values by the bit above the magnitude
+                d_width += 1
     
             if self.debug > 0:
                 print("d_width: %d" % d_width)                
